@@ -323,6 +323,21 @@ def fd_check(res, kind_sig, gi, g_fd, S, leak, rows_ok, co_any, nondiff, label, 
     return worst
 
 
+def value_rounding(k, x, z, T):
+    """(n_x, n_z) float64 tensor: entrywise bound of |K_impl - K_exact| (harness/refkernels.kernel_allowance)."""
+    import torch
+    from harness import refkernels
+    kind = {'l2': 'l2', 'light': 'l2_light', 'prod': 'l1', 'lpq': 'lpq', 'sumpower': 'sum_power'}[k['kind']]
+    kw = {}
+    if kind == 'lpq':
+        kw['p'] = float(k['p'])
+    if kind == 'sum_power':
+        kw.update(const_mix=float(k.get('cmix', 0.0)), power=k.get('power', 2))
+    E = refkernels.kernel_allowance(kind, z.double().numpy(), x.double().numpy(), float(k['L']), float(k['q']),
+                                    None if T is None else T.double().numpy(), **kw)
+    return torch.from_numpy(E).T.contiguous()
+
+
 def near_fd_check(res, kobj, k, T, x, z, c, gi, p):
     """Property oracle at a point 2^-30 away from a center (not coinciding, distance >= eps: the true derivative is
     required there).  One-sided-safe central differences with step δ/4 along the coordinate that differs, of the real
@@ -384,6 +399,10 @@ def exec_block(p, drv):
     co = coincident(x, z)
     gK, kmax = fd_kernel(lambda a, b: kobj.get_kernel_matrix(a, b, T), x, z, h)      # (n_x, n_z, d)
     noise = 16 * EPS64 / h * (c.abs() @ kmax)                                         # rounding of f(z±h) / h
+    # ... plus the rounding of the kernel values themselves: a relative eps for distances computed from differences, but an
+    # absolute sqrt(eps)-size distance error for the expansion forms (light kernel always, cdist(p=2) above 25 rows), which
+    # matters where the true distance is ~0 although the rows differ (zero transform weight on the differing coordinate)
+    noise = noise + 8.0 / h * (c.abs() @ value_rounding(k, x, z, T))
     gK = torch.where(co[:, :, None], torch.zeros_like(gK), gK)                        # coinciding center removed
     g_fd = torch.einsum('li,ijd->ljd', c, gK)
     S = torch.einsum('li,ij->lj', c.abs(), gK.abs().amax(dim=-1))                     # Σ_i |c_li| max_a |∂_a k_i|
